@@ -126,7 +126,22 @@ func (a *Application) getProviderEndpoints(ctx context.Context, providerType str
 	providerProfile := a.createProviderProfile(providerType)
 	providerProfile.Path = pr.targetPath
 
-	providerEndpoints := a.filterEndpointsByProfile(endpoints, providerProfile, pr.requestLogger)
+	// The provider in the URL is a hard constraint: unlike the generic proxy route there is
+	// no falling back to every endpoint when none of that provider is available.
+	providerOnly := make([]*domain.Endpoint, 0, len(endpoints))
+	for _, endpoint := range endpoints {
+		if providerProfile.IsCompatibleWith(a.canonicalEndpointType(endpoint.Type)) {
+			providerOnly = append(providerOnly, endpoint)
+		}
+	}
+	if len(providerOnly) == 0 {
+		pr.requestLogger.Warn("No healthy endpoint of the requested provider",
+			"provider", providerType,
+			"healthy_endpoints", len(endpoints))
+		return providerOnly, nil
+	}
+
+	providerEndpoints := a.filterEndpointsByProfile(providerOnly, providerProfile, pr.requestLogger)
 
 	// If the request has specific requirements (e.g., needs vision support),
 	// apply those filters on top of the provider constraint
@@ -135,6 +150,17 @@ func (a *Application) getProviderEndpoints(ctx context.Context, providerType str
 	}
 
 	return providerEndpoints, nil
+}
+
+// canonicalEndpointType maps a configured endpoint type (which may be any of a profile's
+// routing prefixes, e.g. "lmstudio", "lm_studio" or "dmr") to the profile name used for
+// compatibility checks.
+func (a *Application) canonicalEndpointType(endpointType string) string {
+	normalised := NormaliseProviderType(endpointType)
+	if a.profileFactory != nil {
+		return a.profileFactory.NormalizeProviderName(normalised)
+	}
+	return normalised
 }
 
 // filterModelsByProvider ensures model listings only show what's actually available
